@@ -3,6 +3,7 @@
 package weshnet
 
 import (
+	"time"
 	"bytes"
 	crand "crypto/rand"
 	"fmt"
@@ -32,6 +33,18 @@ func TestVerif_C12_Service(t *testing.T) {
 			rt.Fatalf("harness: no account group")
 		}
 		accLog := accGC.MetadataStore().OpLog()
+		vWaitQuiet(func() int { return accLog.Len() }, 500*time.Millisecond, 15*time.Second)
+		// (the service may still write announcements of its own into the account group: only group-joined entries count)
+		joins := func() int {
+			evs, _ := c13AllMeta(accGC)
+			n := 0
+			for _, e := range evs {
+				if e.Metadata.EventType == protocoltypes.EventType_EventTypeAccountGroupJoined {
+					n++
+				}
+			}
+			return n
+		}
 		accSK, _ := tp.SecretStore.GetAccountPrivateKey()
 		_, accMD, _ := tp.SecretStore.GetGroupForAccount()
 		var trace []string
@@ -62,14 +75,17 @@ func TestVerif_C12_Service(t *testing.T) {
 			a := alts[rapid.IntRange(0, len(alts)-1).Draw(rt, "alt")]
 			g := proto.Clone(inv).(*protocoltypes.Group)
 			a.f(g)
-			before := accLog.Len()
+			before := joins()
 			_, err := svc.MultiMemberGroupJoin(vCtx, &protocoltypes.MultiMemberGroupJoin_Request{Group: g})
 			trace = append(trace, fmt.Sprintf("join(%s)->refused=%v", a.label, err != nil))
 			if err == nil {
 				fail("altered-invitation-accepted/"+a.label, "the service joined an altered invitation (%s)", a.label)
 			}
-			if accLog.Len() != before {
-				fail("refused-join-appended/"+a.label, "refused join (%s) appended %d entries to the account log", a.label, accLog.Len()-before)
+			if n := joins(); n != before {
+				fail("refused-join-appended/"+a.label, "refused join (%s) appended %d group-joined entries to the account log", a.label, n-before)
+			}
+			if len(accGC.MetadataStore().ListMultiMemberGroups()) != 0 {
+				fail("refused-join-appended/"+a.label, "after a refused join (%s) the account lists a joined group", a.label)
 			}
 		}
 		// the genuine invitation is joined, the group activated and inspected
